@@ -546,14 +546,25 @@ theorem fixed_getcode_full_false : ¬ fixed_getcode_injective_full := by
     (by decide +kernel) (by decide +kernel)
   simp at this
 
-/-- fix 6288f11 (D28): the code `GetCode` reports is the code the CMap has for that CID, and
-    the CID is one the encoder holds a width for -/
+/-- fix 6288f11 (D28) and D-C14-7: the code `GetCode` reports is the code the CMap has for that
+    CID, the CID is one the encoder holds a width for, and a text has been recorded for the code -/
 theorem fixed_getcode_in_cmap (f : FixedEnc) (cid : Nat) (text : Bytes) (c : Nat)
-    (h : f.getCode cid text = some c) : f.all cid = some c ∧ ∃ w, f.width.get cid = some w := by
+    (h : f.getCode cid text = some c) :
+    f.all cid = some c ∧ (∃ w, f.width.get cid = some w) ∧ ∃ t, f.text.get c = some t := by
   unfold FixedEnc.getCode at h
   split at h
   · simp at h
-  · rename_i w hw; exact ⟨h, w, hw⟩
+  · rename_i w hw
+    split at h
+    · simp at h
+    · rename_i c' hc
+      split at h
+      · rename_i ht
+        simp at h; subst h
+        cases hg : f.text.get c' with
+        | none => simp [hg] at ht
+        | some t => exact ⟨hc, ⟨w, hw⟩, t, rfl⟩
+      · simp at h
 
 /-- a CID without a code in the CMap is never reported as encodable — whatever widths are stored -/
 theorem fixed_getcode_unmapped (f : FixedEnc) (cid : Nat) (text : Bytes) (h : f.all cid = none) :
@@ -571,10 +582,35 @@ theorem fixed_getcode_notdef (csr : CSR) (pairs : List (Nat × Nat)) (w0 : Int) 
   have := h p (List.mem_reverse.mp hp)
   simpa using this
 
-/-- and when some code does map to CID 0, `GetCode(0, ·)` is that code from the start -/
-theorem identity_getcode_notdef (w : Int) (text : Bytes) :
-    (FixedEnc.identity w).getCode 0 text = some 0 := by
+/-- **the text of glyph 0 is recorded** (D-C14-7, audit finding 7).  A fresh Identity encoder
+does not claim that CID 0 is encoded although its width is preset, so the embedders' "GetCode,
+else Encode" protocol reaches `Encode`; `Encode(0, text, cid0Width)` succeeds with code 0 and
+records the text, and from then on `GetCode(0, ·)` answers code 0.  Before the fix `GetCode(0, ·)`
+answered at once and the text of a missing character was never stored. -/
+theorem identity_notdef_text_recorded (w : Int) (text other : Bytes) :
+    (FixedEnc.identity w).getCode 0 text = none ∧
+    ((FixedEnc.identity w).encode 0 text w).2 = .ok 0 ∧
+    ((FixedEnc.identity w).encode 0 text w).1.text.get 0 = some text ∧
+    ((FixedEnc.identity w).encode 0 text w).1.getCode 0 other = some 0 := by
+  refine ⟨by simp [FixedEnc.getCode, FixedEnc.identity, Map.get_cons, identityCode], ?_⟩
+  have henc : (FixedEnc.identity w).encode 0 text w =
+      ({ (FixedEnc.identity w) with text := (FixedEnc.identity w).text.insert 0 text }, .ok 0) := by
+    simp [FixedEnc.encode, FixedEnc.setText, FixedEnc.identity, Map.get_cons, identityCode]
+  rw [henc]
+  refine ⟨rfl, by simp, ?_⟩
   simp [FixedEnc.getCode, FixedEnc.identity, Map.get_cons, identityCode]
+
+/-- in general: whenever `GetCode` answers, a text has been stored for the code by an `Encode` -/
+theorem fixed_getcode_text_recorded (f : FixedEnc) (cid : Nat) (text : Bytes) (c : Nat)
+    (h : f.getCode cid text = some c) : ∃ t, f.text.get c = some t :=
+  (fixed_getcode_in_cmap f cid text c h).2.2
+
+/-- **why the cache of an extracted composite font must not be keyed by the code value**
+(D-C14-3, audit finding 3): the incomplete code `<01>` and the valid code `<0100>` of a two-byte
+code space have the same packed value; only the number of bytes consumed and the validity tell
+them apart. -/
+theorem code_value_ambiguous :
+    decode csrUCS2 [1] = (1, 1, false) ∧ decode csrUCS2 [1, 0] = (1, 2, true) := by decide +kernel
 
 /-- what holds for `GetCode` in general: the code determines the CID (any injective CMap, any
     state of the width and text tables) -/
